@@ -17,7 +17,12 @@
 (*   SharedLastWipes  clones share a block; the holder count is            *)
 (*                    decremented and tested in ONE atomic step, the last  *)
 (*                    holder wipes and releases          (conforming)      *)
+(* DropUnwind is a Drop that happens while the thread is panicking (the    *)
+(* handle is owned by a frame a panic unwinds through); the contract is    *)
+(* the same.                                                               *)
 (* Deviations (each must break an invariant):                              *)
+(*   SkipWipeWhenPanicking  Drop wipes only when the thread is not         *)
+(*                    unwinding                                            *)
 (*   NoDropErase      no zeroisation in Drop                               *)
 (*   EraseCopy        a temporary copy is zeroised instead                 *)
 (*   SharedClone      clones share storage and EVERY drop wipes it         *)
@@ -67,10 +72,12 @@ Clone(i, j) ==
   /\ UNCHANGED <<released, nextSecret, pend>>
 
 \* what one atomic drop of the handle in slot i does to storage
-WipesOnDrop(b) ==
+WipesOnDropNormally(b) ==
   CASE Variant \in {"NoDropErase", "EraseCopy"} -> FALSE
     [] Variant = "SharedClone" -> TRUE                       \* every drop wipes the shared block
     [] OTHER -> blocks[b].holders = 1                        \* the last holder wipes
+WipesOnDrop(b) == WipesOnDropNormally(b)
+WipesOnUnwind(b) == IF Variant = "SkipWipeWhenPanicking" THEN FALSE ELSE WipesOnDropNormally(b)
 AfterDrop(b, wipe) ==
   LET c == IF wipe THEN 0 ELSE blocks[b].content IN
   /\ blocks' = [blocks EXCEPT ![b] = [content |-> c, holders |-> blocks[b].holders - 1]]
@@ -81,6 +88,14 @@ Drop(i) ==
   /\ AfterDrop(slot[i].block, WipesOnDrop(slot[i].block))
   /\ slot' = [slot EXCEPT ![i] = Empty]
   /\ prog' = Append(prog, [op |-> "drop", slot |-> i, kind |-> slot[i].kind, src |-> 0])
+  /\ UNCHANGED <<nextBlock, nextSecret, pend>>
+
+\* the same, run by the unwinder
+DropUnwind(i) ==
+  /\ Idle /\ slot[i].live /\ Len(prog) < MaxSteps
+  /\ AfterDrop(slot[i].block, WipesOnUnwind(slot[i].block))
+  /\ slot' = [slot EXCEPT ![i] = Empty]
+  /\ prog' = Append(prog, [op |-> "drop_unwind", slot |-> i, kind |-> slot[i].kind, src |-> 0])
   /\ UNCHANGED <<nextBlock, nextSecret, pend>>
 
 \* two threads start dropping two handles at the same moment
@@ -105,6 +120,7 @@ ThreadStep(t) ==
 Next == \/ \E i \in Slots, k \in Kinds : Construct(i, k)
         \/ \E i, j \in Slots : Clone(i, j)
         \/ \E i \in Slots : Drop(i)
+        \/ \E i \in Slots : DropUnwind(i)
         \/ \E i, j \in Slots : Drop2(i, j)
         \/ \E t \in pend : ThreadStep(t)
 Spec == Init /\ [][Next]_vars
